@@ -15,3 +15,8 @@ func GetFuncSize(entry uintptr) (int, error) {
 	return bytecode.GetFuncSize(64, entry, false)
 }
 func UnpatchAll() { patch.UnpatchAll() }
+
+// Compose builds the whole trampoline in place (writes into the placeholder).
+func Compose(origin, trampoline uintptr, jumpLen int) (uintptr, error) {
+	return patch.VerifC03Compose(origin, trampoline, jumpLen)
+}
